@@ -507,5 +507,31 @@ def r8(F, R):
     R.floor(4)
 
 
+def r9(F, R):
+    """The documented in-place transformation of the attempt's events (`fail_on_skipped`) keeps each event at its step:
+    a skipped background step becomes a failed *background* step (C13.R1's table; a necessary condition of the sequence
+    `Started(step) -> exactly one result of that step` as writers behind it see it)."""
+    from . import c13
+    c13.r1(F, R)
+
+
+def r10(F, R):
+    """Event values are cloned faithfully (Tee / Repeat hand clones to their consumers): per variant the same variant,
+    every field from the same field."""
+    n = roles.check_clone_faithful_table(F, R, "event::", "event-clone-faithful")
+    R.floor(10)
+
+
+def r11(F, R):
+    """"... then Finished, with no event of that attempt after it": with the tracing integration, a finished attempt must be
+    de-registered from the log collector when its completion is consumed (C20.R3's table rule), else later logs become
+    Log events of the finished attempt."""
+    if not any(b.name.endswith("Collector::finish_scenario") for b in F.crate_bodies()):
+        R.ok("deregister-every-completion", None, "no tracing collector in this configuration")
+        return
+    from . import c20
+    c20.deregistration(F, R)
+
+
 RULES = [("R1", r1, None), ("R2", lambda F, R: r2(F, R) and None, None), ("R3", r3, None), ("R4", r4, None), ("R5", r5, None), ("R6", r6, None),
-         ("R7", r7, None), ("R8", r8, None)]
+         ("R7", r7, None), ("R8", r8, None), ("R9", r9, None), ("R10", r10, None), ("R11", r11, None)]
